@@ -50,6 +50,9 @@ def conv_form(ret):
 def run(chk, repo, tier):
     from .common import no_hidden_state
     no_hidden_state(chk, repo, 'C19')
+    chk.clause('C19-o', 'blurring leaves the input frame untouched', 3)
+    from .common import operands_untouched
+    operands_untouched(chk, repo, 'C19-o', ['detector.pixel', 'convolvable.jitter', 'convolvable.smear', 'detector.charge_diffusion'], allow=[])
     chk.clause('C19-a', 'the transfer function has the axes of fft2(img) for every image shape', 3)
     chk.clause('C19-b', 'results are moduli (never negative)', 3)
     chk.clause('C19-c', 'output = |ifft2(fft2(img) * kernel)| with a kernel that depends on the image shape only', 3)
